@@ -328,6 +328,7 @@ def s_network(draw, tier=None):
         st.tuples(st.just("remove"), st.integers(0, 7)),
         st.tuples(st.sampled_from(["deepcopy", "pickle"])),
         st.tuples(st.just("add-network"), st.integers(0, 3), st.integers(0, 7)),
+        st.tuples(st.just("add-mixed-list"), st.integers(1, 2), st.integers(1, 2)),
     )
     return {"net": net, "extra": extra["lanelets"], "level": draw(st.sampled_from(["network", "scenario"])),
             "ops": [list(o) for o in draw(st.lists(op, min_size=2, max_size=10))]}
@@ -381,6 +382,16 @@ def check_network(r, ctx):
                         sc.add_objects(la)
                     else:
                         ln.add_lanelet(la)
+                elif kind == "add-mixed-list":
+                    # one add_objects call with a list: a lanelet network followed by single lanelets
+                    if sc is None or added + op[1] + op[2] > len(extra):
+                        ctx.label("op-skipped")
+                        continue
+                    first = [gs.build_lanelet(l) for l in extra[added:added + op[1]]]
+                    rest = [gs.build_lanelet(l) for l in extra[added + op[1]:added + op[1] + op[2]]]
+                    added += op[1] + op[2]
+                    sc.add_objects([LaneletNetwork.create_from_lanelet_list(first, cleanup_ids=False)] + rest)
+                    ln = sc.lanelet_network
                 elif kind == "add-network":
                     # merge another network; op[1] new lanelets, one lanelet with an id already in use is placed
                     # somewhere among them (it is rejected with a warning, the others are added)
